@@ -77,6 +77,9 @@ func candidates(r *FuncResult, o *Oblig) []*Term {
 		if ab >= 0 && o.Blk >= 0 && r.anc != nil && !r.anc[o.Blk][ab] {
 			continue // made on a path that cannot reach this obligation
 		}
+		if o.Kind == "vacuity" && r.PreConj[a.id] {
+			continue // reachability covers ignore the function's own preconditions
+		}
 		cands = append(cands, a)
 	}
 	return cands
